@@ -177,7 +177,8 @@ META = {
          'given up only after the inner Close or on a cancelled subscription, order, WaitGroup discipline, Close completeness and, under fairness, that Close returns and a '
          'cancelled subscription gets its channel closed; two legacy designs and two seeded designs are rejected) and randomly scripted concurrent runs of the real decorator are '
          'validated as INTERNAL traces (hook events + harness events) against that model; a context delay must be stamped exactly as made (also when published a second later) and '
-         'messages handed out while the inner Close is in progress still pass through',
+         'messages handed out while the inner Close is in progress still pass through; in the other direction TLC-simulated behaviours of SubDecorator.tla are replayed as gate '
+         'schedules against the real decorator (every hook point gated) and the resulting internal traces validated',
     design_ref='DESIGN.md 6/C20',
     note='Counter equality is judged on a private prometheus.Registry gathered at quiescence. delayed_until has one-second resolution.',
     technique='TLA+ stamping function checked exhaustively by TLC, used as oracle; trace validation of decorator stacks and counter/event equality'),
